@@ -129,6 +129,17 @@ func addGarbleToHash(inputHash []byte) [sha256.Size]byte {
 func appendFlags(w io.Writer, forBuildHash bool) {
 	if flagLiterals {
 		io.WriteString(w, " -literals")
+		if forBuildHash {
+			// The variables set via -ldflags=-X are left alone by -literals at compile time,
+			// so which ones are set must be part of the build cache key; otherwise
+			// changing -X between two builds reuses a stale object.
+			if ldflags, err := cmdgoQuotedSplit(flagValue(sharedCache.ForwardBuildFlags, "-ldflags")); err == nil {
+				for val := range flagValues(ldflags, "-X") {
+					name, _, _ := strings.Cut(val, "=")
+					io.WriteString(w, " -X="+name)
+				}
+			}
+		}
 	}
 	if flagTiny {
 		io.WriteString(w, " -tiny")
